@@ -115,3 +115,7 @@ package leanhelixterm
 //@   modifies *
 //@   assert before call GenerateLeanHelixBlockProof [O3.the-proof-is-generated-from-all-the-commits-handed-over] $commitMessages == commitMessages && $keyManager == keyManager
 //@   assert before call onCommit [O3.the-host-receives-the-committed-block-with-the-generated-proof] $block == block && $blockProof == proof.Raw()
+
+// ---- logging helper evaluated on block proof bytes that came from outside (its call is skipped as A-LOG; that it cannot panic is proved here) ----
+//@ func printShortBlockProofBytes
+//@   props C12
